@@ -176,7 +176,9 @@ def verify_uri(
             (uri_qs_obj or {}),
         )
         for uri in client_redirect_uris
-        for uri_base, uri_qs_obj in [(uri, {}) if isinstance(uri, str) else uri]
+        for uri_base, uri_qs_obj in [
+            (uri, parse_qs(urlparse(uri).query)) if isinstance(uri, str) else uri
+        ]
     ]
 
     # Handle redirect URIs for native clients:
